@@ -171,9 +171,14 @@ class Interp(object):
         env.features.add("composite")
         return g
 
-    def op_partition(self, d):
+    def op_partition(self, d, ctor=False):
+        """ctor=True: the partition is created with the class constructor (documented) instead of through the problem"""
         env = self.env
-        b = env.pep.declare_block_partition(d=int(d))
+        if ctor:
+            from PEPit import BlockPartition
+            b = BlockPartition(d=int(d))
+        else:
+            b = env.pep.declare_block_partition(d=int(d))
         env.B.append(b)
         env.features.add("partition")
         return b
